@@ -1,7 +1,7 @@
 (* C04 -- Detection floor: dangerous imports and calls are never rated LIKELY_SAFE. *)
 From Coq Require Import List String Ascii ZArith Bool Arith Lia.
 From Verif Require Import Base Ops Interp RefVM Unparse Severity SeverityProofs AnalysisTable
-  Analysis AnalysisProofs FloorProofs SimRel SimProofs.
+  Analysis AnalysisProofs FloorProofs OtherCallProofs SimRel SimProofs.
 Import ListNotations.
 Local Open Scope nat_scope.
 
@@ -21,19 +21,6 @@ Theorem C04_tables_cover_documentation :
   forallb (fun f => mem_str f bad_calls) documented_bad_calls = true.
 Proof. split; vm_compute; reflexivity. Qed.
 
-Lemma mem_str_In x l : mem_str x l = true -> In x l.
-Proof.
-  induction l as [|y r IH]; cbn; [discriminate|].
-  destruct (String.eqb_spec x y) as [->|_]; [left; reflexivity | right; auto].
-Qed.
-
-Lemma In_mem_str x l : In x l -> mem_str x l = true.
-Proof.
-  induction l as [|y r IH]; cbn; [tauto|]. intros [->|H].
-  - rewrite String.eqb_refl. reflexivity.
-  - destruct (String.eqb x y); auto.
-Qed.
-
 Lemma builtins_not_dangerous : forall b, In b builtins_modules ->
   forall d, In d documented_dangerous -> ~ In d (dotted_prefixes b).
 Proof.
@@ -42,6 +29,20 @@ Proof.
       by (vm_compute; reflexivity).
   intros b Hb d Hd Hin. rewrite forallb_forall in T. specialize (T b Hb).
   rewrite forallb_forall in T. specialize (T d Hd). apply In_mem_str in Hin. rewrite Hin in T. discriminate.
+Qed.
+
+(* either no stdlib import of the name [nm] is in the body, or one is (std is a decidable oracle) *)
+Lemma classic_shadow b nm :
+  (forall m', In (SImport m' nm) b -> std m' = false) \/ (exists m', In (SImport m' nm) b /\ std m' = true).
+Proof.
+  induction b as [|st r [IH|(m' & Hin & Hs)]].
+  - left. intros m' [].
+  - destruct st as [m n| | | |]; try (left; intros m' [H|H]; [discriminate | eauto]).
+    destruct (String.eqb_spec n nm) as [->|Hne].
+    + destruct (std m) eqn:S; [right; exists m; split; [left; reflexivity | exact S]|].
+      left. intros m' [H|H]; [inversion H; subst; exact S | eauto].
+    + left. intros m' [H|H]; [inversion H; subst; congruence | eauto].
+  - right. exists m'. split; [right; exact Hin | exact Hs].
 Qed.
 
 (* (1) a global resolved from a module outside the standard library => at least LIKELY_UNSAFE,
@@ -109,6 +110,129 @@ Example C04_refuted_alias_escape :
   end.
 Proof. vm_compute. reflexivity. Qed.
 
+(* (4) any OTHER call -- (i) a builtin that is not one of the bad four, (ii) a global from a module outside
+   the standard library, (iii) a computed callee (the result of an earlier call / persistent load) --
+   made by any call-making opcode, whatever happens to its value: at least LIKELY_UNSAFE, for identifier-like
+   names (no blank in the callee's name, no parenthesis in resolved module / attribute names).
+   The shared de-duplication set cannot hide the call (proved through the Analysis.ALL order: when
+   OvertlyBadEvals runs the set holds only import texts and texts BadCalls reported as OVERTLY_MALICIOUS).
+   The one escape is OvertlyBadEvals' "likely safe" exemption, which goes by NAME only: some stdlib module's
+   attribute with the name fickling prints for the callee -- the global's attribute name, or the _var<j>
+   fickling introduced -- is resolved somewhere in the pickle (known finding D20-stdlib-name-shadow). *)
+Definition other_callee (c : val) : Prop :=
+  match c with
+  | VGlobal m n => has_space n = false /\
+                   ((is_builtins m = true /\ ~ In n documented_bad_calls) \/ (is_builtins m = false /\ std m = false))
+  | VObj _ => True
+  | _ => False
+  end.
+
+Definition shadowed (l : list event) (c : val) : Prop :=
+  exists m' nm, In (EvResolve m' nm) l /\ is_builtins m' = false /\ std m' = true /\
+                ((exists m, c = VGlobal m nm) \/ (exists j, nm = var_name j)).
+
+Theorem C04_other_call : forall p first_var s v protos fs c args kw k,
+  run_from p (fk_init first_var) = Ok s -> vrun_from p vm_init = Ok v ->
+  analyze crepr std protos s = Some fs ->
+  In (EvCall c args kw k) (log v) -> other_callee c ->
+  (forall m n, In (EvResolve m n) (log v) -> has_paren m = false /\ has_paren n = false) ->
+  3 <= doc_rank (verdict fs) \/ shadowed (log v) c.
+Proof.
+  intros p fv s v protos fs c args kw k Hs Hv HA Hin Hc Hident.
+  destruct (run_lockstep p _ _ _ _ _ (R_init fv) Hs Hv) as (al & _ & [Rs Rm Rh Re Rc Rv Rp]).
+  destruct (events_calls_covered _ _ _ Re _ _ _ _ Hin) as (i & fe & es & kwe & Hst & Hf & _).
+  assert (exists nm, callee_name fe = Some nm /\ has_space nm = false /\
+                     ((exists m, c = VGlobal m nm) \/ (exists j, nm = var_name j))) as (nm & Hnm & Hsp & Hkind).
+  { inversion Hf; subst; cbn in Hc; try contradiction.
+    - destruct Hc as [Hsp _]. exists n. split; [reflexivity|]. split; [exact Hsp | left; eauto].
+    - eexists. split; [reflexivity|]. split; [apply var_name_nospace | right; eauto]. }
+  destruct (classic_shadow (body s) nm) as [Hno|(m' & Hin' & Hstd)].
+  - left. eapply body_floor_other_call; eauto.
+    intros m n Hi. destruct (events_imports_sound _ _ _ Re m n Hi) as [Hr _]. exact (Hident m n Hr).
+  - right. destruct (events_imports_sound _ _ _ Re m' nm Hin') as [Hr Hb].
+    exists m', nm. repeat split; assumption.
+Qed.
+
+(* the escape is real on the current tree: math.pow resolved and dropped, builtins.pow called *)
+Definition shadow_escape : list op :=
+  [OGlobal "math" "pow"; OPop; OGlobal "builtins" "pow"; OMark; OConst (CInt 2); OConst (CInt 3); OTuple;
+   OReduce; OStop].
+Example C04_other_call_refuted_shadow :
+  match run shadow_escape, vrun shadow_escape with
+  | Ok s, Ok v =>
+      match analyze (fun _ => "2"%string) (fun m => String.eqb m "math") [] s with
+      | Some fs => doc_rank (verdict fs) = 2 /\
+                   In (EvCall (VGlobal "builtins" "pow") [VConst (CInt 2); VConst (CInt 3)] None 0) (log v)
+      | None => False
+      end
+  | _, _ => False
+  end.
+Proof. vm_compute. split; [reflexivity | left; reflexivity]. Qed.
+
+(* ... and with BUILD applied to the result nothing at all is reported: LIKELY_SAFE *)
+Example C04_never_likely_safe_refuted_shadow :
+  match run [OGlobal "math" "pow"; OPop; OGlobal "builtins" "pow"; OMark; OConst (CInt 2); OConst (CInt 3);
+             OTuple; OReduce; OConst CNone; OBuild; OStop] with
+  | Ok s => match analyze (fun _ => "2"%string) (fun m => String.eqb m "math") [] s with
+            | Some fs => fs = [] /\ doc_rank (verdict fs) = 0
+            | None => False
+            end
+  | Err _ => False
+  end.
+Proof. vm_compute. auto. Qed.
+
+(* Corollary: never LIKELY_SAFE.  Whatever the opcode choice, protocol framing, memo use, surrounding
+   data or fate of the values: a pickle that resolves a non-stdlib or documented-dangerous global is not
+   rated LIKELY_SAFE; one that makes ANY call (bad four included: the alias escape D18 still yields
+   LIKELY_UNSAFE) is not rated LIKELY_SAFE unless the callee's printed name is shadowed by a stdlib import. *)
+Corollary C04_never_likely_safe : forall p first_var s v protos fs,
+  run_from p (fk_init first_var) = Ok s -> vrun_from p vm_init = Ok v ->
+  analyze crepr std protos s = Some fs ->
+  (forall m n, In (EvResolve m n) (log v) -> has_paren m = false /\ has_paren n = false) ->
+  (* imports *)
+  (forall m n, In (EvResolve m n) (log v) -> is_builtins m = false ->
+     std m = false \/ (exists d, In d (dotted_prefixes m) /\ In d documented_dangerous) ->
+     1 <= doc_rank (verdict fs)) /\
+  (* calls *)
+  (forall c args kw k, In (EvCall c args kw k) (log v) ->
+     match c with VGlobal _ n => has_space n = false | VObj _ => True | _ => False end ->
+     1 <= doc_rank (verdict fs) \/ shadowed (log v) c).
+Proof.
+  intros p fv s v protos fs Hs Hv HA Hident. split.
+  - intros m n Hin Hb [Hstd|(d & Hd & Hdoc)].
+    + pose proof (C04_nonstd_import p fv s v protos fs m n Hs Hv HA Hin Hb Hstd). lia.
+    + pose proof (C04_dangerous_module p fv s v protos fs m n d Hs Hv HA Hin Hd Hdoc). lia.
+  - intros c args kw k Hin Hc.
+    destruct (run_lockstep p _ _ _ _ _ (R_init fv) Hs Hv) as (al & _ & [Rs Rm Rh Re Rc Rv Rp]).
+    destruct (events_calls_covered _ _ _ Re _ _ _ _ Hin) as (i & fe & es & kwe & Hst & Hf & _).
+    assert (exists nm, callee_name fe = Some nm /\ has_space nm = false /\
+                       ((exists m, c = VGlobal m nm) \/ (exists j, nm = var_name j))) as (nm & Hnm & Hsp & Hkind).
+    { inversion Hf; subst; cbn in Hc; try contradiction.
+      - exists n. split; [reflexivity|]. split; [exact Hc | left; eauto].
+      - eexists. split; [reflexivity|]. split; [apply var_name_nospace | right; eauto]. }
+    destruct (classic_shadow (body s) nm) as [Hno|(m' & Hin' & Hstd)].
+    + left. assert (3 <= doc_rank (verdict fs)); [|lia]. eapply body_floor_other_call; eauto.
+      intros m n Hi. destruct (events_imports_sound _ _ _ Re m n Hi) as [Hr _]. exact (Hident m n Hr).
+    + right. destruct (events_imports_sound _ _ _ Re m' nm Hin') as [Hr Hb].
+      exists m', nm. repeat split; assumption.
+Qed.
+
+(* non-vacuity of (4): a computed callee (getattr's result called, value BUILD-ed), and a non-stdlib
+   global called through NEWOBJ with the value popped *)
+Example C04_other_call_nonvacuous :
+  match run [OGlobal "builtins" "getattr"; OMark; OConst (CStr "a"); OConst (CStr "b"); OTuple; OReduce;
+             OMark; OConst (CStr "c"); OTuple; OReduce; OConst CNone; OBuild; OStop],
+        run [OGlobal "evil.mod" "f"; OEmptyTuple; ONewObj; OPop; OConst CNone; OStop] with
+  | Ok s1, Ok s2 =>
+      match analyze (fun _ => "'x'"%string) (fun _ => false) [] s1,
+            analyze (fun _ => "'x'"%string) (fun _ => false) [] s2 with
+      | Some f1, Some f2 => doc_rank (verdict f1) = 3 /\ doc_rank (verdict f2) = 3
+      | _, _ => False
+      end
+  | _, _ => False
+  end.
+Proof. vm_compute. auto. Qed.
+
 (* non-vacuity: OBJ-made exec call, popped; non-stdlib global only memoised *)
 Example C04_nonvacuous :
   match run [OMark; OGlobal "__builtin__" "exec"; OConst (CStr "x"); OObj; OPop;
@@ -127,3 +251,5 @@ Print Assumptions C04_tables_cover_documentation.
 Print Assumptions C04_nonstd_import.
 Print Assumptions C04_dangerous_module.
 Print Assumptions C04_bad_call.
+Print Assumptions C04_other_call.
+Print Assumptions C04_never_likely_safe.
